@@ -280,6 +280,10 @@ func oracle(args []string) {
 			}
 		}
 	}
+	for i, f := range apiFiles(r, *n/2) {
+		check(f, true, map[string]any{"source": "api", "index": i})
+		sum.Dist["api-built"]++
+	}
 	achFiles, _ := gen.Fixtures(*repo)
 	for _, p := range achFiles {
 		if b, err := os.ReadFile(p); err == nil && len(b) < 300000 {
